@@ -91,6 +91,8 @@ class G:
 
 
 REG = {}
+# catalogue functions that take no array argument (nothing to lay out): covered by the history stream only through their users
+CATALOGUE_NO_ARRAY = {'mahotas.disk', 'mahotas.features.lbp.count_binary1s'}
 
 
 def reg(name, path, genf, call, no_readonly=(), canvas=(), nd_min=1):
@@ -633,8 +635,8 @@ def _eval_sweep(cases):
                 seen.add(f['key'])
                 keep.append(f)
         out.append(dict(findings=keep, nontrivial=nontrivial, sig=json.dumps(case, sort_keys=True),
-                        tags=dict(stream='sweep', layout=layout, fn=fn, outcome=got[0] if got[0] == 'ok' else 'exc:' + got[1],
-                                  module=e['path'].rsplit('.', 1)[0])))
+                        tags={'stream': 'sweep', 'layout': layout, 'fn': fn, 'outcome': got[0] if got[0] == 'ok' else 'exc:' + got[1],
+                              'module': e['path'].rsplit('.', 1)[0], 'sweep:' + e['path']: 'C' if layout == 'C' else 'non-C'}))
     return out
 
 
@@ -1068,8 +1070,30 @@ def _eval_cover(case):
     findings = []
     if missing:
         findings.append(dict(kind='model', key='registry:unregistered-public-function', detail=dict(missing=missing)))
+    # round 4: the call-sequence (history) stream and the catalogue of the degenerate/ASan sweeps (harness/catalog.py):
+    # every public function the sweeps know must be the `then` of some history pair in THIS run's plan, and must have a
+    # registry entry (the plan is computed by `_history_plan`, the same function `cases` uses)
+    paths = sorted({e['path'] for e in reg_.values()})
+    planned = set(case.get('history_paths') or [])
+    if case.get('history_paths') is not None:
+        for pth in paths:
+            if pth not in planned:
+                findings.append(dict(kind='model', key=f'coverage:{pth}:not-in-history-stream', detail={}))
+    ncat = 0
+    try:
+        from harness import catalog
+        from harness.props.c12 import _resolve_public
+        regcodes = {getattr(_resolve(e['path']), '__code__', None) for e in reg_.values()}
+        for n in sorted(catalog.ENTRIES):
+            o = _resolve_public(n)
+            ncat += 1
+            if o is None or (o.__code__ not in regcodes and n not in CATALOGUE_NO_ARRAY):
+                findings.append(dict(kind='model', key=f'coverage:{n}:catalogue-function-not-in-registry', detail={}))
+    except ImportError:
+        pass
     return dict(findings=findings, nontrivial=True, sig='cover', n=len(api), nontrivial_n=0,
-                tags=dict(stream='cover', public=len(api), registered=len(covered)))
+                tags=dict(stream='cover', public=len(api), registered=len(covered), catalogue=ncat,
+                          history_functions=len(planned)))
 
 
 def _fresh_run(cases, pattern=0x33):
@@ -1106,7 +1130,8 @@ def _eval_history(case):
         f.append(dict(kind='property', key=f'{fn}:history-dependent', detail=dict(first=case['first']['fn'], then=fn,
                                                                                    after_first=ra[:3], alone=rb[:3])))
     return dict(findings=f, nontrivial=True, sig=json.dumps(case, sort_keys=True),
-                tags=dict(stream='history', fn=fn, first=case['first']['fn']))
+                tags={'stream': 'history', 'fn': fn, 'first': case['first']['fn'],
+                      'history:' + _registry()[fn]['path']: 'same-fn' if _registry()[case['first']['fn']]['path'] == _registry()[fn]['path'] else 'other-fn'})
 
 
 def evaluate(cases):
@@ -1165,10 +1190,37 @@ def _rand_view(rng):
     return dict(stream='view', shape=shape, strides=strides, base=base, buf=base + hi + 1 + rng.choice([0, 2]))
 
 
+def _history_plan(rng, tier, reg_):
+    """(first, then) pairs of registry entries. Round 3: every ordered pair of entries that share a public function.
+    Round 4: EVERY public function is the `then` of at least two pairs (quick; eight in the thorough tier): once after the
+    same function on other inputs, once after a function of another family (memoised structuring elements, lazily built
+    tables, scratch buffers and caches keyed on shapes are shared across functions of a module)"""
+    by_path = {}
+    for name in sorted(reg_):
+        by_path.setdefault(reg_[name]['path'], []).append(name)
+    paths = sorted(by_path)
+    plan = []
+    for path, names in sorted(by_path.items()):
+        if len(names) >= 2:
+            for a in names:
+                for b in names:
+                    if a != b:
+                        plan += [(a, b)] * dict(quick=1, thorough=4, search=1)[tier]
+    for pi, path in enumerate(paths):
+        names = by_path[path]
+        for k in range(dict(quick=1, thorough=4, search=1)[tier]):
+            b = names[k % len(names)]
+            plan.append((b, b))
+            other = paths[(pi + 1 + rng.randrange(len(paths) - 1)) % len(paths)]
+            plan.append((rng.choice(by_path[other]), b))
+    return plan
+
+
 def cases(rng, tier):
     reg_ = _registry()
     out = list(_corpus()) if tier != 'search' else []
-    out.append(dict(stream='cover'))
+    cover_case = dict(stream='cover')
+    out.append(cover_case)
     nview = dict(quick=600, thorough=20000, search=3000)[tier]
     for _ in range(nview):
         out.append(_rand_view(rng))
@@ -1179,20 +1231,13 @@ def cases(rng, tier):
             for nd in (1, 2, 3):
                 for _ in range(dict(quick=1, thorough=5, search=2)[tier]):
                     out.append(dict(stream='norm', norm=norm, layout=layout, nd=nd, seed=rng.randrange(1 << 30)))
-    # call sequences within one public function: every ordered pair of registry entries that share the function
-    by_path = {}
-    for name in sorted(reg_):
-        by_path.setdefault(reg_[name]['path'], []).append(name)
-    for path, names in sorted(by_path.items()):
-        if len(names) < 2:
-            continue
-        for a in names:
-            for b in names:
-                if a != b:
-                    for _ in range(dict(quick=1, thorough=4, search=1)[tier]):
-                        out.append(dict(stream='history',
-                                        first=dict(stream='sweep', fn=a, seed=rng.randrange(1 << 30), size=5, pos=None, layout='C'),
-                                        then=dict(stream='sweep', fn=b, seed=rng.randrange(1 << 30), size=5, pos=None, layout='C')))
+    # call sequences (history): see `_history_plan`
+    plan = _history_plan(rng, tier, reg_)
+    cover_case['history_paths'] = sorted({reg_[b]['path'] for _, b in plan})
+    for a, b in plan:
+        out.append(dict(stream='history',
+                        first=dict(stream='sweep', fn=a, seed=rng.randrange(1 << 30), size=5, pos=None, layout='C'),
+                        then=dict(stream='sweep', fn=b, seed=rng.randrange(1 << 30), size=5, pos=None, layout='C')))
     ninputs = dict(quick=3, thorough=40, search=6)[tier]
     for name in sorted(reg_):
         e = reg_[name]
